@@ -136,6 +136,37 @@ def run(chk):
             except Exception as e:
                 chk.violation("C07.kinematics", "%s:nonarith:%d:%s" % (key, ph, nm), "%s in phase %d is not arithmetic: %s" % (fn["name"], ph, e))
                 ok = False
+    # ---- the instants themselves: t = 0, t1, t2 (and t3 for position): the value must be present and be the closed form there
+    if len(forms) == 9:
+        tfs = sorted({str(s_) for e in forms.values() for s_ in e.free_symbols if str(s_).startswith("self.t")})
+        bpoints = [("0", (0, 1, 2, 3, 0), 1, sp.Integer(0), ("v", "p"))]
+        if len(tfs) >= 2:
+            bpoints += [("t1", (0, 1, 2, 3, 1), 1, A.sym(tfs[0]), ("v", "p")), ("t2", (0, 1, 2, 3, 2), 2, A.sym(tfs[1]), ("v", "p"))]
+        if len(tfs) >= 3:
+            bpoints += [("t3", (0, 1, 2, 3, 3), 3, A.sym(tfs[2]), ("p",))]
+        for bname, ranks, ph, tval, which in bpoints:
+            st, oid, tv, names = C06.setup(sim, prog, ranks, "Position")
+            for nm, fn in (("v", f_vel), ("p", f_pos)):
+                if nm not in which:
+                    continue
+                ls = C06.run_accessor(sim, fn, st, oid, tv)
+                chk.evaluated(len(ls), nontrivial=(key, "at", bname, nm))
+                good = False
+                got = None
+                if len(ls) == 1 and ls[0].kind == "return":
+                    val, _u = quantity_value(sim.final_value(ls[0].state, ls[0].value))
+                    if val is not None:
+                        try:
+                            got = A.to_sympy(val).subs(tsym, tval)
+                            good = A.equal(got, forms[(ph, nm)].subs(tsym, tval))
+                        except Exception:
+                            good = False
+                if not good:
+                    chk.violation("analysis-incomplete" if any(l.kind == "unsupported" for l in ls) else "C07.kinematics", "%s:at-%s:%s" % (key, bname, nm),
+                                  "%s at exactly t = %s returns %s, expected the phase-%d closed form evaluated there (present, %s)"
+                                  % (fn["name"], bname, "nothing" if got is None else A.show(got), ph, {"0": "the start value", "t3": "the end value"}.get(bname, "continuity")),
+                                  fn=fn["pretty"], file=loc(fn["span"]))
+                    ok = False
     if len(forms) == 9:
         # symbols of the profile
         mp = [s_ for s_ in forms[(1, "a")].free_symbols]
